@@ -444,7 +444,7 @@ class Woven:
     pass
 
 
-def weave(repo='/repo', contracts='/verif/contracts', extra_modules=(), drop_directives=(), override_src=None):
+def weave(repo='/repo', contracts='/verif/contracts', extra_modules=(), drop_directives=(), override_src=None, drop_extra_fns=()):
     """returns Woven with .text, .files{rel: info}, .fn_spans[(rel,key)] = (line_lo, line_hi), .stats"""
     srcdir = os.path.join(repo, 'src')
     override_src = override_src or {}     # rel -> path of the baseline text used INSTEAD of the current file (isolation, see check.py)
@@ -564,8 +564,33 @@ def weave(repo='/repo', contracts='/verif/contracts', extra_modules=(), drop_dir
     specs = ALG.verus_text(w.alg_lemmas) + specs
     buf = [CRATE_HEAD, 'pub mod vp {\nuse vstd::prelude::*;\n', prelude, '\n', specs, '\n} // mod vp\nuse crate::vp::*;\n']
     extra = ''
+    w.dropped_extra_fns = sorted(drop_extra_fns)
     for em in extra_modules:
-        extra += '\n' + open(os.path.join(contracts, em)).read() + '\n'
+        etxt = open(os.path.join(contracts, em)).read()
+        if drop_extra_fns:
+            # lemma / client functions that no longer compile against the changed crate are removed (their obligations are undecided)
+            for fnname in drop_extra_fns:
+                mm = re.search(r'(?m)^pub (?:proof )?fn %s\b' % re.escape(fnname), etxt)
+                if mm:
+                    em_mask = mask(etxt)
+                    j = mm.end()
+                    depth = 0
+                    while j < len(etxt):
+                        c = em_mask[j]
+                        if c in '([':
+                            depth += 1
+                        elif c in ')]':
+                            depth -= 1
+                        elif c == '{' and depth == 0:
+                            k = match_close(em_mask, j)
+                            nx = skip_ws(em_mask, k + 1, len(etxt))
+                            if nx < len(etxt) and re.match(r'[,=&|<>+\-*/.;?]|(ensures|requires|decreases)\b', em_mask[nx:]):
+                                j = k + 1
+                                continue
+                            etxt = etxt[:mm.start()] + '// (removed: %s does not compile against the current crate)\n' % fnname + etxt[k + 1:]
+                            break
+                        j += 1
+        extra += '\n' + etxt + '\n'
     woven_pos = sum(len(x) for x in buf)
     filemaps = {}   # rel -> list of (woven_abs_start, local_start, length)
     stack = []
